@@ -1,7 +1,7 @@
 (* C17: the handler redirects exactly where expand points. *)
 From Coq Require Import Lia.
 From Curies.model Require Import Str PyData Trie Conv Query Val Answer Spec CheckQ Resolver.
-From Curies.proofs Require Import StrFacts IndexFacts QueryFacts LawFacts MutateFacts.
+From Curies.proofs Require Import StrFacts IndexFacts QueryFacts CheckFacts LawFacts MutateFacts.
 
 Section R.
 Variables (d : str) (rs : list record) (c : conv).
@@ -49,4 +49,22 @@ Proof.
   destruct (resolve c rest) as [l|code|]; simpl in E; try discriminate.
   f_equal. unfold failure_code. injection E as E'. apply N2Z.inj. exact E'.
 Qed.
+(* "redirects to the result of converter.expand": the response is determined by what expand answers on the same string *)
+Theorem resolve_relative rest e : request_ok d rest = true -> expand c rest false false = Val e ->
+  vresponse (resolve c rest) = rel_response d rest e.
+Proof.
+  intros Hok He. rewrite (resolve_spec d rs c Hc rest Hok). rewrite (A_expand _ _ _ Hc), wrap_default in He.
+  injection He as <-. unfold spec_response, rel_response, sp_expand.
+  destruct (partition d rest) as [[p i]|]; auto. destruct (owner_by_prefix rs p); reflexivity.
+Qed.
 End R2.
+
+(* the model observation of the run satisfies the run's predicate whenever the table holds expand's answers *)
+Theorem P_C17_model k : valid_w k = true ->
+  P_C17 k (VList (map (fun pe => let r := rel_response (wc_delim k) (fst pe) (snd pe) in VList [r; r]) (combine (wc_paths k) (wc_expands k)))) = true.
+Proof.
+  intros Hv. unfold P_C17. rewrite map_length, combine_length.
+  unfold valid_w in Hv. apply andb_true_iff in Hv as [_ Hl]. apply Nat.eqb_eq in Hl. rewrite Hl, Nat.min_id, Nat.eqb_refl. simpl.
+  generalize (combine (wc_paths k) (wc_expands k)). intro l. induction l as [|a l IH]; simpl; auto.
+  rewrite !CheckFacts.val_eqb_refl. simpl. exact IH.
+Qed.
